@@ -423,7 +423,7 @@ class Outcome:
 
 
 class Exec:
-    def __init__(self, mir, ctx, models=None, max_paths=4000, inline=None, stop_at=None):
+    def __init__(self, mir, ctx, models=None, max_paths=4000, inline=None, stop_at=None, havoc_unknown=False):
         self.mir = mir
         self.ctx = ctx
         self.models = models or []     # [(regex, fn(ex, callee, args, pc, events) -> [(cond_terms, value|Panic)])]
@@ -432,6 +432,8 @@ class Exec:
         self.paths = 0
         self.stop_at = stop_at         # optional predicate(fn, bb, terminator) -> bool : stop path here
         self.heap = {}                 # oid -> [field values]; snapshot on forks, recorded in every Outcome
+        self.havoc_unknown = havoc_unknown   # unknown EXTERNAL calls: event + arbitrary result of the declared type
+        self.havoc_n = 0
 
     def new_obj(self, oid, fields):
         self.heap[oid] = list(fields)
@@ -545,6 +547,8 @@ class Exec:
             return self.read_place(o[5:], env, fn)
         if o.startswith("const "):
             return self.const_value(o[6:], fn)
+        if re.fullmatch(r"[A-Za-z_][\w:<>, ]*", o):
+            return OpaqueV("fn item " + o)       # a function item passed as an argument
         raise EncodingError("cannot parse operand %r in %s" % (o, fn.name))
 
     # ---- rvalues -------------------------------------------------------
@@ -826,7 +830,8 @@ class Exec:
             if m:
                 dest, callee, argtxt, nxt = m
                 args = [self.operand(a, env, fn) for a in split_top(argtxt)] if argtxt.strip() else []
-                results = self.call(callee, args, pc, events, fn, depth)
+                ret_ty = fn.locals.get(dest.strip()) if dest and re.fullmatch(r"_\d+", dest.strip()) else None
+                results = self.call(callee, args, pc, events, fn, depth, ret_ty)
                 if len(results) == 1 and results[0][2] is not None and nxt is not None:
                     cpc, cev, val, hp = results[0]
                     pc, events = cpc, cev
@@ -895,8 +900,8 @@ class Exec:
             return
         raise EncodingError("cannot assign to place %r in %s" % (place, fn.name))
 
-    def call(self, callee, args, pc, events, fn, depth):
-        """Returns [(pc, events, value|None)]."""
+    def call(self, callee, args, pc, events, fn, depth, ret_ty=None):
+        """Returns [(pc, events, value|None, heap)]."""
         for rx, model in self.models:
             if rx.startswith("const:"):
                 continue
@@ -935,13 +940,14 @@ class Exec:
         if not cands:
             last = callee.split("::")[-1]
             cands = [f for n, fs in self.mir.fns.items() for f in fs if n.split("::")[-1] == last and re.fullmatch(r"[\w:]+", callee)]
-        if len(set(f.text for f in cands)) > 1 and "::" in callee:
-            # several methods of that name: pick the one whose receiver type / module matches the path
+        if "::" in callee:
+            # `Type::method`: the candidate must belong to that type (receiver type or module name) --
+            # otherwise `Vec::len` would be taken for some crate type's `len`
             tyname = callee.split("::")[-2]
-            narrowed = [f for f in cands if (f.args and re.search(r"\b%s\b" % re.escape(tyname), f.args[0][1]))
-                        or f.name.split("::")[0] == tyname.lower()]
-            if narrowed:
-                cands = narrowed
+            cands = [f for f in cands if (f.args and re.search(r"\b%s\b" % re.escape(tyname), f.args[0][1]))
+                     or f.name.split("::")[0] == tyname.lower() or (f.ret and re.search(r"\b%s\b" % re.escape(tyname), f.ret) and not f.args)]
+        if callee.split("::")[0] in ("core", "std", "alloc"):
+            cands = []
         bodies = set(f.text for f in cands)
         if len(bodies) == 1:
             target = cands[0]
@@ -953,6 +959,28 @@ class Exec:
                     self._pending_panics = self._pending_panics + [o]
                     res.append((o.pc, o.events, None, o.heap))
             return res
+        if self.havoc_unknown:
+            # an EXTERNAL function (not in the crate's MIR): recorded as an event; its result is an
+            # arbitrary value of the declared type.  It cannot touch the modelled heap except through
+            # what it is handed, which the caller's law inspects via the event's arguments.
+            self.havoc_n += 1
+            ev = ("call", callee) + tuple(repr(self.load(a))[:60] for a in args)
+            hp = copy.deepcopy(self.heap)
+            t = (ret_ty or "").strip()
+            if re.match(r"^(std::result::)?Result<", t):
+                return [(pc, events + [ev + ("Ok",)], EnumV(variant=0, fields=[OpaqueV("ok#%d" % self.havoc_n)]), hp),
+                        (pc, events + [ev + ("Err",)], EnumV(variant=1, fields=[OpaqueV("err#%d" % self.havoc_n)]), hp)]
+            if re.match(r"^(std::option::)?Option<", t):
+                return [(pc, events + [ev + ("Some",)], EnumV(variant=1, fields=[OpaqueV("some#%d" % self.havoc_n)]), hp),
+                        (pc, events + [ev + ("None",)], EnumV(variant=0, fields=[]), hp)]
+            if t == "bool":
+                b = self.ctx.fresh_bool("havoc_" + re.sub(r"\W+", "_", callee)[-24:])
+                return [(pc, events + [ev], BoolV(b.term), hp)]
+            if t in INT_RANGES:
+                return [(pc, events + [ev], self.ctx.fresh_int("havoc", t), hp)]
+            if t == "()":
+                return [(pc, events + [ev], TupleV([]), hp)]
+            return [(pc, events + [ev], OpaqueV("ret#%d:%s" % (self.havoc_n, callee[-40:])), hp)]
         raise EncodingError("call to unmodelled function %r in %s" % (callee, fn.name))
 
 
